@@ -877,6 +877,13 @@ def stub_module(dotted):
                                    'load': Builtin('json.load', lambda a, k: _raise_oos('file I/O')), 'dump': Builtin('json.dump', lambda a, k: _raise_oos('file I/O'))})
     if dotted == 'yaml':
         return StubModule('yaml', {'dump': _B('yaml.dump', lambda x, **kw: _text_dump('yaml', x)), 'safe_load': _B('yaml.safe_load', lambda t: _text_load('yaml', t))})
+    if dotted.split('.')[0] == 'schemdraw':
+        from . import schemdraw_model
+        return schemdraw_model.module(dotted)
+    if dotted == 'enum':
+        return StubModule('enum', {'Enum': ClassVal('Enum', [], {}, None)})
+    if dotted == 'collections':
+        return StubModule('collections', {})
     if dotted in ('pyvc.spec', 'pyvc'):
         from . import specsym
         return specsym.spec_module()
@@ -1111,6 +1118,8 @@ def value_attr(I, obj, name):
     if isinstance(obj, tuple):
         if name in ('index', 'count'):
             return _list_method(I, list(obj), name)
+        if len(obj) == 2 and name in ('x', 'y'):        # schemdraw.util.Point
+            return obj[0] if name == 'x' else obj[1]
         raise_py('AttributeError', f'tuple has no attribute {name}')
     if isinstance(obj, IDict):
         return _dict_method(I, obj, name)
